@@ -19,7 +19,9 @@ RULE = (
     "Hypothesis draws an oil (T 80..350 F, API 12..55, gas gravity 0.56..1.3, initial GOR log-uniform 20..2500 "
     "scf/bbl, constructed so that the Standing bubble point exceeds 50 psia) and 2..14 pressures in "
     "[15, 2.5 p_b] that always include p_b itself, p_b(1 +- 1e-9), the float neighbours of p_b, and points on "
-    "both sides. Non-trivial = the sorted sample has at least two pressures strictly below and two at/above "
+    "both sides; the ordering and inverse relations are checked on scalar calls and again through the array "
+    "branches on a float64 grid and on an integer grid of whole psi; one oil in four has its temperature, API and GOR "
+    "given as Python ints. Non-trivial = the sorted sample has at least two pressures strictly below and two at/above "
     "p_b (so that every ordering oracle has something to compare). Distinct = hash of the case record."
 )
 ASSUMPTIONS = [
@@ -117,6 +119,28 @@ def check_case(case) -> Result:
             ordered("C12/gor-rises-below", "Rs must rise with pressure below p_b", rs[k], rs[k + 1], p0, p1, gor)
         elif p0 >= pb:
             ordered("C12/fvf-falls-above", "Bo must fall with pressure above p_b", bo[k + 1], bo[k], p0, p1, bo[k])
+    # ---- the same relations through the array branches (float64 grid and an integer grid of whole psi) --------
+    for label, arr in (("float64 array", np.array(ps, float)), ("int64 array", np.unique(np.array([int(round(q)) for q in ps if q >= 15.5], dtype=np.int64)))):
+        if arr.size < 2:
+            continue
+        rs_a = np.asarray(lib(f"solution_gor_Standing({label})", O.solution_gor_Standing, T, arr, api, sg, gor), float)
+        bo_a = np.asarray(lib(f"b_o_Standing({label})", O.b_o_Standing, T, arr, api, sg, gor), float)
+        pa = arr.astype(float)
+        if rs_a.shape != pa.shape or bo_a.shape != pa.shape or not (np.all(np.isfinite(rs_a)) and np.all(np.isfinite(bo_a))):
+            res.bad("C12/finite", f"{label}: Rs / Bo not finite or wrong shape on {list(arr)[:6]}... oil={o}")
+            continue
+        if np.any(np.diff(rs_a) < -1e-12 * gor):
+            res.bad("C12/gor-non-decreasing", f"{label}: Rs not non-decreasing: {rs_a[:8]} on p={pa[:8]} oil={o}")
+        above_a = pa >= pb
+        if np.any(rs_a[above_a] != gor):
+            res.bad("C12/gor-equals-initial-above", f"{label}: Rs={rs_a[above_a][:4]} at/above p_b, Rsi={gor!r} oil={o}")
+        for q, r_ in zip(pa[~above_a], rs_a[~above_a]):
+            back = float(lib("pressure_bubblepoint_Standing", O.pressure_bubblepoint_Standing, T, api, sg, float(r_)))
+            if not res.check("C12/gor-inverts-bubble-point", abs(back - q), 1e-10 * q, f"{label}: p_b(Rs(p))={back!r} for p={q!r} (Rs={r_!r}) oil={o};"):
+                break
+        below_a = ~above_a
+        if below_a.sum() >= 2 and np.any(np.diff(bo_a[below_a]) <= 0) and np.min(np.diff(pa[below_a])) > 1e-6 * pb:
+            res.bad("C12/fvf-rises-below", f"{label}: Bo does not rise below p_b: {bo_a[below_a][:6]} oil={o}")
     if min(mu) <= 0:
         res.bad("C12/positive", f"viscosity {min(mu)!r} <= 0 oil={o}")
     if co and min(co) <= 0:
